@@ -7,7 +7,7 @@ import json, subprocess, sys, os, concurrent.futures as cf
 
 idx = json.load(open('/verif/mutants/index.json'))
 reverts = {'revert_F1': ['C01'], 'revert_F2': ['C02'], 'revert_F3': ['C10'], 'revert_F4': ['C12'], 'revert_F5': ['C14'],
-           'revert_F6ab': ['C18'], 'revert_F6c': ['C18'], 'revert_F6d': ['C18'], 'revert_F7': ['C19'], 'revert_F8': ['C20']}
+           'revert_F6ab': ['C18'], 'revert_F6c': ['C18'], 'revert_F6d': ['C18'], 'revert_F7': ['C19'], 'revert_F8': ['C20'], 'revert_F9': ['C14']}
 for n, p in reverts.items():
     idx.append(dict(name=n, props=p, kind='break', note='reverse of the fix: commit'))
 registered = set(subprocess.check_output(['/verif/bin/vcheck', '-list'], text=True).split()[0::1])
